@@ -16,7 +16,7 @@ Local Open Scope N_scope.
 Record fixes := mkFixes {
   fx_thresh : bool;   (* threshold: `i < k` instead of `i <= k` (top-k, not top-(k+1), satisfactions) *)
   fx_dupif : bool;    (* cast_dupif: witness size + 2, count + 1 instead of size + 1, count + 2 *)
-  fx_unc : bool;      (* uncompressed keys: 66 bytes (push opcode + 65) instead of 65 *)
+  fx_unc : bool;      (* pk_k / pk_h with an uncompressed key: 66 bytes (push opcode + 65) instead of 65 *)
   fx_andv : bool      (* and_v: dissat_data = sat(l) ++ dissat(r), as the satisfier computes it *)
 }.
 Definition as_written : fixes := mkFixes false false false false.
@@ -120,9 +120,9 @@ Definition num_cost (k n : N) : N :=
   end.
 
 (* multi / sortedmulti: [uncs] = is_uncompressed of each key, in order *)
-Definition ext_multi (fx : fixes) (k : N) (uncs : list bool) : ext :=
+Definition ext_multi (k : N) (uncs : list bool) : ext :=
   let n := N.of_nat (length uncs) in
-  mkExt (num_cost k n + fold_right (fun (u : bool) a => (if u then unc_bytes fx else 34) + a) 0 uncs + 1)
+  mkExt (num_cost k n + fold_right (fun (u : bool) a => (if u then 66 else 34) + a) 0 uncs + 1)
         true 1
         (Some (mkSD (1 + 73 * k) (k + 1) (1 + 73 * k) n n))
         (Some (mkSD (1 + k) (k + 1) (1 + k) n n)) tl_new 0.
@@ -228,12 +228,12 @@ Definition okey_le (a b : option Z) : bool :=
   | Some x, Some y => (x <=? y)%Z
   end.
 (* stable insertion sort, ascending (Vec::sort_by_key is stable) *)
-Fixpoint th_ins (key : sdpair -> option Z) (x : sdpair) (l : list sdpair) : list sdpair :=
+Fixpoint th_ins {A} (key : A -> option Z) (x : A) (l : list A) : list A :=
   match l with
   | [] => [x]
   | y :: r => if okey_le (key y) (key x) then y :: th_ins key x r else x :: l
   end.
-Definition th_sort (key : sdpair -> option Z) (l : list sdpair) : list sdpair :=
+Definition th_sort {A} (key : A -> option Z) (l : list A) : list A :=
   fold_left (fun acc x => th_ins key x acc) l [].
 
 (* .iter().rev().enumerate().try_fold(0, ..): [l] is already reversed, [i] the index *)
@@ -290,7 +290,7 @@ Fixpoint ext_of_gen (fx : fixes) (c : xctx) (m : ms) : ext :=
   | MPkK k => ext_pk_k fx (xc_schnorr c) (xc_unc c k)
   | MPkH k => ext_pk_h fx (xc_schnorr c) (xc_unc c k)
   | MRawPkH _ => ext_pk_h fx (xc_schnorr c) false
-  | MMulti k ks | MSortedMulti k ks => ext_multi fx k (map (xc_unc c) ks)
+  | MMulti k ks | MSortedMulti k ks => ext_multi k (map (xc_unc c) ks)
   | MMultiA k ks | MSortedMultiA k ks => ext_multi_a k (N.of_nat (length ks))
   | MAfter t => ext_after t
   | MOlder t => ext_older t
@@ -488,6 +488,7 @@ Fixpoint ext_safe (fx : fixes) (c : xctx) (m : ms) : bool :=
   | MPkH k => fx_unc fx || xc_schnorr c || negb (xc_unc c k)
   | MAlt x | MSwap x | MCheck x | MVerify x | MNonZero x | MZeroNotEqual x => ext_safe fx c x
   | MDupIf x => fx_dupif fx && ext_safe fx c x
+  | MMultiA _ _ | MSortedMultiA _ _ => xc_schnorr c
   | MAndB l r | MAndV l r => ext_safe fx c l && ext_safe fx c r
   | MAndOr x y z => dt x && ext_safe fx c x && ext_safe fx c y && ext_safe fx c z
   | MOrB l r => dt l && dt r && ext_safe fx c l && ext_safe fx c r
